@@ -68,6 +68,9 @@ def ill_edit(rng, p, cols, eng):
     # engine-restricted column function: supported only by the *other* kind of engine
     it_ok, sql_ok = (False, True) if eng[0] == "it" else (True, False)
     e = ("supp", it_ok, sql_ok, ("ref", col))
+    if rng.random() < 0.4:
+        # ... nested inside a function that does declare support for this engine: still unsupported
+        e = ("supp", True, True, e) if rng.random() < 0.5 else ("supp", not it_ok, not sql_ok, ("neg", e))
     plain = (None, True, False, False)
     if k == "unsupported_calc":
         return ("un", ("calc", gen.fresh_tag(rng, cols), ("add", e, ("lit", 1))), plain, p), ["EngineError"], k
